@@ -22,7 +22,7 @@ import time
 
 VERIF = os.path.dirname(os.path.dirname(os.path.abspath(__file__)))
 WORK = os.path.join(VERIF, "c19", "work")
-REPO = "/repo"
+REPO = os.environ.get("FG_REPO", "/repo")
 SEED = int(os.environ.get("VERIF_SEED", "1") or "1")
 
 COMMON = r'''
@@ -89,6 +89,27 @@ impl Callable for FPtr {
 }
 no_access!(FPtr);
 
+/// Borrows its data: Send + Sync but NOT 'static (the property quantifies over
+/// every F: Send + Sync).
+pub struct FBorrow<'a> { pub id: usize, pub counter: &'a AtomicUsize }
+impl<'a> FBorrow<'a> {
+    pub fn call(&self) -> usize { self.counter.fetch_add(1, Ordering::SeqCst); self.id }
+}
+impl<'a> DataAccessDyn for FBorrow<'a> {
+    fn borrows(&self) -> TypeIds { TypeIds::new() }
+    fn borrow_muts(&self) -> TypeIds { TypeIds::new() }
+}
+/// a, b -> c plus a free node d, over functions that borrow `counter`.
+pub fn small_graph_borrow<'a>(counter: &'a AtomicUsize) -> FnGraph<FBorrow<'a>> {
+    let mut b = FnGraphBuilder::new();
+    let [a, bb, c, _d] = b.add_fns([
+        FBorrow { id: 0, counter }, FBorrow { id: 1, counter }, FBorrow { id: 2, counter }, FBorrow { id: 3, counter },
+    ]);
+    b.add_logic_edge(a, c).unwrap();
+    b.add_contains_edge(bb, c).unwrap();
+    b.build()
+}
+
 /// An error type that is Send but NOT Sync (the property only asks for Send user futures).
 #[derive(Debug)]
 pub struct ErrNS(pub std::cell::Cell<u8>);
@@ -129,7 +150,24 @@ pub fn block_on<T>(fut: impl Future<Output = T>) -> T {
 }
 '''
 
-FTYPES = ["FPlain", "FBox", "FArc", "FPtr"]
+FTYPES = ["FPlain", "FBox", "FArc", "FPtr", "FBorrow"]
+
+
+def fty(ftype, lt="'a"):
+    """Type expression of a stored function type."""
+    return "FBorrow<%s>" % lt if ftype == "FBorrow" else ftype
+
+
+def generics(ftype):
+    return "<'a>" if ftype == "FBorrow" else ""
+
+
+def run_fn(ftype, mutable):
+    if ftype == "FBorrow":
+        return ("pub fn run() -> usize {\n    let counter = AtomicUsize::new(0);\n    {\n"
+                "        let %sgraph = small_graph_borrow(&counter);\n        prog(&%sgraph);\n    }\n    counter.load(Ordering::SeqCst)\n}\n") % ("mut " if mutable else "", "mut " if mutable else "")
+    return ("pub fn run() -> usize {\n    let counter = Arc::new(AtomicUsize::new(0));\n"
+            "    let %sgraph = small_graph::<%s>(&counter);\n    prog(&%sgraph);\n    counter.load(Ordering::SeqCst)\n}\n") % ("mut " if mutable else "", ftype, "mut " if mutable else "")
 FUTS = ["async", "boxed", "ready"]
 
 # (name, mutable graph?, kind) kind in plain|try|control
@@ -173,15 +211,14 @@ def conc_call(api, with_opts, kind, fut, g="g", err="String"):
 def gen_conc(api, mutable, kind, with_opts, ftype, fut, use, err="String"):
     def conc_call_e(api, with_opts, kind, fut, g="g"):
         return conc_call(api, with_opts, kind, fut, g=g, err=err)
-    gty = "&mut FnGraph<%s>" % ftype if mutable else "&FnGraph<%s>" % ftype
+    gty = "&mut FnGraph<%s>" % fty(ftype) if mutable else "&FnGraph<%s>" % fty(ftype)
     run = None
     if use == "assert_send":
         body = "    let fut = %s;\n    assert_send(&fut);\n    drop(fut);" % conc_call_e(api, with_opts, kind, fut)
     elif use == "scoped_thread":
         body = ("    let fut = %s;\n    // the run is created here and awaited on another thread\n"
                 "    std::thread::scope(|s| { s.spawn(move || { let _ = block_on(fut); }); });") % conc_call_e(api, with_opts, kind, fut)
-        run = ("pub fn run() -> usize {\n    let counter = Arc::new(AtomicUsize::new(0));\n"
-               "    let mut graph = small_graph::<%s>(&counter);\n    prog(&%sgraph);\n    counter.load(Ordering::SeqCst)\n}\n") % (ftype, "mut " if mutable else "")
+        run = run_fn(ftype, mutable)
     else:  # spawn_static: what tokio::spawn demands
         if mutable:
             inner = "let mut g = g; let _ = %s.await;" % conc_call_e(api, with_opts, kind, fut, g="g")
@@ -193,7 +230,7 @@ def gen_conc(api, mutable, kind, with_opts, ftype, fut, use, err="String"):
             body = ("    let g: Arc<FnGraph<%s>> = Arc::new(g);\n"
                     "    let fut = async move { %s };\n    require_send_static(fut);") % (ftype, inner)
             gty = "FnGraph<%s>" % ftype
-    src = "use crate::common::*;\n\npub fn prog(g: %s) {\n%s\n}\n" % (gty, body)
+    src = "use crate::common::*;\n\npub fn prog%s(g: %s) {\n%s\n}\n" % (generics(ftype), gty, body)
     if run:
         src += "\n" + run
     return src, run is not None
@@ -213,7 +250,7 @@ def gen_stream(api, with_opts, ftype, use):
                 "            while let Some(r) = s.next().await { tx.send(r).unwrap(); }\n"
                 "            drop(tx);\n"
                 "        });\n"
-                "    });") % (ftype, call)
+                "    });") % (fty(ftype), call)
         run = True
     else:
         body = ("    let s = %s;\n"
@@ -222,16 +259,15 @@ def gen_stream(api, with_opts, ftype, use):
                 "        while let Some(r) = s.next().await { let _ = r.call(); }\n"
                 "    }); }); });") % call
         run = True
-    src = "use crate::common::*;\n\npub fn prog(g: &FnGraph<%s>) {\n%s\n}\n" % (ftype, body)
+    src = "use crate::common::*;\n\npub fn prog%s(g: &FnGraph<%s>) {\n%s\n}\n" % (generics(ftype), fty(ftype), body)
     if run:
-        src += ("\npub fn run() -> usize {\n    let counter = Arc::new(AtomicUsize::new(0));\n"
-                "    let graph = small_graph::<%s>(&counter);\n    prog(&graph);\n    counter.load(Ordering::SeqCst)\n}\n") % ftype
+        src += "\n" + run_fn(ftype, False)
     return src, bool(run)
 
 
 def gen_basic(ftype):
     return ("use crate::common::*;\n\npub fn prog() {\n    assert_send_sync_type::<FnGraph<%s>>();\n"
-            "    assert_send_type::<FnRef<'static, %s>>();\n}\n") % (ftype, ftype), False
+            "    assert_send_type::<FnRef<'static, %s>>();\n}\n") % (fty(ftype, "'static"), fty(ftype, "'static")), False
 
 
 def grammar(feature_set):
@@ -245,6 +281,8 @@ def grammar(feature_set):
         progs.append(({"api": api, "ftype": ft, "fut": "-", "use": use}, src, r))
     if feature_set == "default":
         for (api, mutable, kind, w), ft, fut, use in itertools.product(CONC_APIS, FTYPES, FUTS, CONC_USES):
+            if ft == "FBorrow" and use == "spawn_static":
+                continue  # a task spawned on a runtime must be 'static: not a program of the domain
             for err in (ERRS if kind != "plain" else ["-"]):
                 src, r = gen_conc(api, mutable, kind, w, ft, fut, use, err if err != "-" else "String")
                 progs.append(({"api": api, "ftype": ft, "fut": fut, "use": use, "err": err}, src, r))
@@ -370,6 +408,10 @@ def main():
                     for j, (err, sub) in enumerate(sorted(by_err.items())):
                         chosen.append(sub[(SEED * 7 + k * 13 + j * 3) % len(sub)])
                     chosen.append(lst[(SEED * 11 + k * 5 + 1) % len(lst)])
+                    # and one whose function type borrows (not 'static)
+                    bor = [x for x in lst if x[0]["ftype"] == "FBorrow"]
+                    if bor:
+                        chosen.append(bor[(SEED * 5 + k * 3) % len(bor)])
             progs = chosen
         modules = []
         runnable = []
